@@ -1,3 +1,101 @@
-import RlibModel.Model.Common
-/-! Line-protocol driver for engine `treapconc` (stub: to be written by the engine's author). -/
-def main : IO Unit := pure ()
+import RlibModel.Model.TreapConc
+import RlibModel.Generated.RngDiscipline
+/-!
+Line-protocol driver for engine `treapconc` (property C17).
+
+Parameter block `P` = `<A> <C> <MIXMUL> <MIXSHIFT> <PRIOBITS> <SEED>` (decimal; extracted from the source).
+
+* `disc`                                   → the discipline compiled into `Generated/RngDiscipline.lean`
+* `stream P <n>`                           → the first `n` priorities from `SEED`:
+                                             M = one thread of the transition system, S = `stream`
+* `conc <disc> <k> <m> <opseed> P`         → `k` threads × `m` draws under a pseudo-random schedule derived
+                                             from `opseed` (for the split disciplines: a pseudo-random *serial*
+                                             schedule — there the model has no schedule-independent outcome)
+* `sched <disc> P ; m0 m1 … ; i0 i1 …`     → programs `m0 m1 …` under exactly the schedule `i0 i1 …`
+* `fsched <disc> P ; m0 m1 … ; i0 i1 …`    → the same on the fine-grained system (get/set, lock/read/write/unlock,
+                                             load/CAS/retry); the answer is computed from `FState.abs`
+
+raw: own-cell disciplines `T <summ t0>;<summ t1>;…`, shared ones `U <summ (sorted all results)>`;
+view: `ok` iff the run satisfies the property's statement evaluated against `stream`
+(thread-local: every thread's results are the sequential stream; shared: all results together are exactly the
+first `total` elements of the sequential stream as a multiset and every thread's results are a subsequence of it).
+-/
+open Rlib Rlib.TreapConc
+
+def parseParams? (ts : List String) : Option (LcgParams × UInt64) :=
+  match parseNats? ts with
+  | some [a, c, mm, sh, bits, seed] =>
+    if a < 2 ^ 64 ∧ c < 2 ^ 64 ∧ mm < 2 ^ 64 ∧ sh < 64 ∧ seed < 2 ^ 64 then
+      some ({ a := .ofNat a, c := .ofNat c, mixMul := .ofNat mm, mixShift := .ofNat sh, prioBits := bits }, .ofNat seed)
+    else none
+  | _ => none
+
+def showRun (D : Discipline) (hist : List UInt64) (rs : List (List UInt64)) : String :=
+  if D.isShared then "U " ++ summ (sortWords hist)
+  else "T " ++ ";".intercalate (rs.map summ)
+
+/-- The property's statement evaluated on one finished run of the model
+    (`hist` = `history st`, `rs[i]` = `results st i`). -/
+def viewRun (D : Discipline) (g : Gen UInt64 UInt64) (seed : UInt64) (progs : List Nat)
+    (hist : List UInt64) (rs : List (List UInt64)) : String :=
+  if D.isShared then
+    let total := hist.length
+    let seq := stream g seed total
+    if total ≠ progs.sum then "fail:incomplete"
+    else if sortWords hist ≠ sortWords seq then "fail:lost-or-duplicated-draw"
+    else if rs.all (fun r => isSubseq r seq) then "ok"
+    else "fail:thread-stream-not-increasing"
+  else
+    if (rs.zip progs).all (fun (r, m) => r == stream g seed m) then "ok"
+    else "fail:thread-stream-differs-from-sequential"
+
+def runLine (D : Discipline) (p : LcgParams) (seed : UInt64) (progs : List Nat) (sched : List Nat) : String :=
+  let g := lcgGen p
+  let st := exec D g (init seed progs) sched
+  let hist := history st
+  let rs := (List.range progs.length).map (results st)
+  answer3 (showRun D hist rs) (viewRun D g seed progs hist rs) "ok"
+
+def runFine (D : Discipline) (p : LcgParams) (seed : UInt64) (progs : List Nat) (sched : List Nat) : String :=
+  let g := lcgGen p
+  let st := (fexec D g (finit seed progs) sched).abs
+  let hist := history st
+  let rs := (List.range progs.length).map (results st)
+  answer3 (showRun D hist rs) (viewRun D g seed progs hist rs) "ok"
+
+def showStream (xs : List UInt64) : String := if xs.length ≤ 32 then showListWith toString xs else summ xs
+
+def handle (line : String) : String :=
+  match splitOps line with
+  | [one] =>
+    match tokens one with
+    | ["disc"] => answer RngDiscipline.current.name RngDiscipline.current.name
+    | "stream" :: rest =>
+      match parseParams? (rest.take 6), parseNats? (rest.drop 6) with
+      | some (p, seed), some [n] =>
+        let g := lcgGen p
+        let st := exec .threadLocal g (init seed [n]) (List.replicate n 0)
+        answer (showStream (results st 0)) (showStream (stream g seed n))
+      | _, _ => badLine line
+    | "conc" :: d :: rest =>
+      match Discipline.parse? d, parseNats? (rest.take 3), parseParams? (rest.drop 3) with
+      | some D, some [k, m, opseed], some (p, seed) =>
+        let progs := List.replicate k m
+        let order := randomOrder (k * m) (UInt64.ofNat opseed) progs []
+        runLine D p seed progs (expand D order)
+      | _, _, _ => badLine line
+    | _ => badLine line
+  | [hdr, ps, ss] =>
+    match tokens hdr with
+    | "sched" :: d :: rest =>
+      match Discipline.parse? d, parseParams? rest, parseNats? (tokens ps), parseNats? (tokens ss) with
+      | some D, some (p, seed), some progs, some sched => runLine D p seed progs sched
+      | _, _, _, _ => badLine line
+    | "fsched" :: d :: rest =>
+      match Discipline.parse? d, parseParams? rest, parseNats? (tokens ps), parseNats? (tokens ss) with
+      | some D, some (p, seed), some progs, some sched => runFine D p seed progs sched
+      | _, _, _, _ => badLine line
+    | _ => badLine line
+  | _ => badLine line
+
+def main : IO Unit := driverMain handle
